@@ -58,7 +58,15 @@ func drive(args []string) int {
 		sc := genScenario(*mode, *seed*1000+int64(i))
 		d := filepath.Join(*dir, fmt.Sprintf("run%d", i))
 		os.MkdirAll(d, 0755)
-		evs, res := runScenarioCounted(sc, d)
+		var evs []verif.Event
+		var res *RunResult
+		if *mode == "restart" {
+			sc = genScenario("core", *seed*1000+int64(i))
+			sc.Mode = "restart"
+			evs, res = restartScenario(sc, d)
+		} else {
+			evs, res = runScenarioCounted(sc, d)
+		}
 		os.RemoveAll(d)
 		report.Runs = append(report.Runs, res)
 		for _, f := range res.Fails {
@@ -67,6 +75,11 @@ func drive(args []string) int {
 		if res.Inconclusive != "" {
 			report.Inconclusive = append(report.Inconclusive, sc.String()+": "+res.Inconclusive)
 			continue // an incomplete run is not handed to TLC
+		}
+		if *mode == "restart" {
+			report.Traces++
+			report.Events += len(evs)
+			continue // two lifetimes: judged by the ledger (NsqdAbs describes one lifetime)
 		}
 		tf := filepath.Join(*outdir, fmt.Sprintf("run-%s-%d-%d.ndjson", *mode, *seed, i))
 		w, err := hlib.NewNDJSON(tf)
